@@ -667,3 +667,33 @@ func runC01Shared(r *Run) {
 		c.Note("shared-informers")
 	})
 }
+
+// c01CountWatches makes the dynamic client of the fake cluster count the watches it has ESTABLISHED per
+// namespace (the reactor registers the watch with the tracker itself, then counts).
+func c01CountWatches(fc *fake.Cluster) func(ns string) int {
+	var mu sync.Mutex
+	n := map[string]int{}
+	dyn, ok := fc.Client.Dynamic().(*fakedynamic.FakeDynamicClient)
+	if !ok {
+		return func(string) int { return 1 << 30 }
+	}
+	dyn.PrependWatchReactor("*", func(action k8stesting.Action) (bool, watch.Interface, error) {
+		wa, ok := action.(k8stesting.WatchAction)
+		if !ok {
+			return false, nil, nil
+		}
+		w, err := dyn.Tracker().Watch(wa.GetResource(), wa.GetNamespace())
+		if err != nil {
+			return true, nil, err
+		}
+		mu.Lock()
+		n[wa.GetNamespace()]++
+		mu.Unlock()
+		return true, w, nil
+	})
+	return func(ns string) int {
+		mu.Lock()
+		defer mu.Unlock()
+		return n[ns]
+	}
+}
